@@ -798,13 +798,13 @@ theorem clientReceive_classNames (C : DecCodec) (depth : Nat) (row : Row) (hpost
   cases names with
   | nil =>
     simp [Xml.name, checkNode, attrKeysOk, Xml.attr, noText, decRspChildren, decIReturnValue, firstElem, getAttrD,
-      imethodResult, RspChild.isIret, hret, clientPost, hpost, firstIret, plainObjs, pure, Except.pure, bind,
+      imethodResult, RspChild.isIret, RspChild.isError, hret, clientPost, hpost, firstIret, plainObjs, pure, Except.pure, bind,
       Except.bind]
   | cons c rest =>
     simp only [List.map_cons] at hdec hnt hpost'
     simp [classNameW, E] at hdec hnt
     simp [Xml.name, checkNode, attrKeysOk, Xml.attr, noText, decRspChildren, decIReturnValue, firstElem, getAttrD,
-      imethodResult, RspChild.isIret, hret, classNameW, E, hdec, hnt, hpost', pure, Except.pure, bind, Except.bind]
+      imethodResult, RspChild.isIret, RspChild.isError, hret, classNameW, E, hdec, hnt, hpost', pure, Except.pure, bind, Except.bind]
 
 /-! ### responses in general: any list of result items, given the round trip of each IRETURNVALUE -/
 
